@@ -14,6 +14,451 @@ From Fiano Require Model.Fmap Proofs.FmapProofs Model.Cbfs Proofs.CbfsProofs.
 Open Scope Z_scope.
 
 (* ====================================================================== *)
+(* A. Boot Guard / CBnT manifests.  [dec_s]/[dec_f] return an option (any error
+   = None), are structurally recursive on the schema (list loops on the decoded
+   count) and have no Panic: an error or a value by construction.  Proved here:
+   the reader stays inside its input, what it would allocate is bounded by the
+   16-bit count types, the container loop ends within its fuel.              *)
+(* ====================================================================== *)
+Module ManT.
+Import Fiano.Model.Manifest Fiano.Gen.ManifestCodecs Fiano.Proofs.ManifestProofs.
+
+(* ---- A.1 bounded reader ---- *)
+Definition suffix_goal_s (s : schema) := forall en b v r,
+  dec_s s en b = Some (v, r) -> exists pre, b = pre ++ r.
+Definition suffix_goal_f (t : fty) := forall en b v r,
+  dec_f t en b = Some (v, r) -> exists pre, b = pre ++ r.
+
+Lemma take_suffix n b h r : take n b = Some (h, r) -> exists pre, b = pre ++ r.
+Proof. intros T. apply take_some in T as (E & _ & _). eauto. Qed.
+
+Lemma suffix_trans (b b1 r : bytes) :
+  (exists p, b = p ++ b1) -> (exists q, b1 = q ++ r) -> exists pre, b = pre ++ r.
+Proof. intros [p ->] [q ->]. exists (p ++ q). now rewrite app_assoc. Qed.
+
+Lemma suffix_list s (IH : suffix_goal_s s) : forall k b v r,
+  dec_list s k b = Some (v, r) -> exists pre, b = pre ++ r.
+Proof.
+  induction k as [|k IHk]; intros b v r D; cbn [dec_list] in D.
+  - inversion D; subst. exists []. reflexivity.
+  - fold (dec_list s) in D.
+    destruct (dec_s s [] b) as [[x b1]|] eqn:D1; [|discriminate].
+    destruct (dec_list s k b1) as [[xs b2]|] eqn:D2; [|discriminate].
+    inversion D; subst v r. clear D.
+    eapply suffix_trans; [eapply IH; eauto|eapply IHk; eauto].
+Qed.
+
+Lemma suffix_ints w : forall k b v r,
+  dec_ints w k b = Some (v, r) -> exists pre, b = pre ++ r.
+Proof.
+  induction k as [|k IHk]; intros b v r D; cbn [dec_ints] in D.
+  - inversion D; subst. exists []. reflexivity.
+  - fold (dec_ints w) in D.
+    destruct (take (Z.of_nat w) b) as [[h1 b1]|] eqn:T1; [|discriminate].
+    destruct (dec_ints w k b1) as [[xs b2]|] eqn:D2; [|discriminate].
+    inversion D; subst v r. clear D.
+    eapply suffix_trans; [eapply take_suffix; eauto|eapply IHk; eauto].
+Qed.
+
+Lemma suffix_mut : (forall s, suffix_goal_s s) /\ (forall t, suffix_goal_f t).
+Proof.
+  apply schema_fty_ind; unfold suffix_goal_s, suffix_goal_f.
+  - intros en b v r D. cbn [dec_s] in D. inversion D; subst. exists []. reflexivity.
+  - intros name t IHt rest IHr en b v r D. cbn [dec_s] in D.
+    destruct (dec_f t en b) as [[x b1]|] eqn:D1; [|discriminate].
+    destruct (dec_s rest (en ++ [x]) b1) as [[xs b2]|] eqn:D2; [|discriminate].
+    inversion D; subst v r. clear D.
+    eapply suffix_trans; [eapply IHt; eauto|eapply IHr; eauto].
+  - intros w en b v r D. cbn [dec_f] in D.
+    destruct (take (Z.of_nat w) b) as [[h r']|] eqn:T; [|discriminate]. inversion D; subst v r'.
+    eapply take_suffix; eauto.
+  - intros n en b v r D. cbn [dec_f] in D.
+    destruct (take (Z.of_nat n) b) as [[h r']|] eqn:T; [|discriminate]. inversion D; subst v r'.
+    eapply take_suffix; eauto.
+  - intros s IH rh en b v r D. cbn [dec_f] in D. eapply IH; eauto.
+  - intros cw s IH rh en b v r D. rewrite dec_f_list in D.
+    destruct (take (Z.of_nat cw) b) as [[h r']|] eqn:T; [|discriminate].
+    eapply suffix_trans; [eapply take_suffix; eauto|eapply suffix_list; eauto].
+  - intros cw w en b v r D. rewrite dec_f_ints in D.
+    destruct (take (Z.of_nat cw) b) as [[h r']|] eqn:T; [|discriminate].
+    eapply suffix_trans; [eapply take_suffix; eauto|eapply suffix_ints; eauto].
+  - intros cw en b v r D. cbn [dec_f] in D.
+    destruct (take (Z.of_nat cw) b) as [[h r']|] eqn:T; [|discriminate].
+    destruct (take (le_dec h) r') as [[d r'']|] eqn:T2; [|discriminate].
+    inversion D; subst v r''. clear D.
+    eapply suffix_trans; eapply take_suffix; eauto.
+  - intros cw e en b v r D. cbn [dec_f] in D.
+    destruct (take (ceval e en mod wmax cw) b) as [[d r']|] eqn:T; [|discriminate].
+    inversion D; subst v r'. eapply take_suffix; eauto.
+Qed.
+
+(* a successful read returns a suffix of its input as the unread rest: nothing
+   outside the given bytes is looked at, and the rest is never longer *)
+Theorem manifest_read_suffix : forall s en b v r,
+  dec_s s en b = Some (v, r) -> exists pre, b = pre ++ r.
+Proof. exact (proj1 suffix_mut). Qed.
+
+Theorem manifest_read_suffix_f : forall t en b v r,
+  dec_f t en b = Some (v, r) -> exists pre, b = pre ++ r.
+Proof. exact (proj2 suffix_mut). Qed.
+
+Corollary manifest_read_rest_le : forall s en b v r,
+  dec_s s en b = Some (v, r) -> zlen r <= zlen b.
+Proof.
+  intros s en b v r D. destruct (manifest_read_suffix _ _ _ _ _ D) as [pre ->].
+  rewrite zlen_app. pose proof (zlen_nonneg pre). lia.
+Qed.
+
+Corollary manifest_read_desc_suffix : forall d b v r,
+  read d b = Some (v, r) -> (exists pre, b = pre ++ r) /\ zlen r <= zlen b.
+Proof.
+  intros d b v r D. unfold read in D. split.
+  - eapply manifest_read_suffix; eauto.
+  - eapply manifest_read_rest_le; eauto.
+Qed.
+
+(* ---- A.2 allocation: every count type is at most 16 bits ---- *)
+
+(* every countType of a dynamic field (list count, blob size), recursively, is at
+   most 2 bytes wide *)
+Fixpoint counts16_s (s : schema) : bool :=
+  match s with
+  | SNil => true
+  | SCons _ t rest => counts16_f t && counts16_s rest
+  end
+with counts16_f (t : fty) : bool :=
+  match t with
+  | FInt _ => true
+  | FArr _ => true
+  | FSub s _ => counts16_s s
+  | FList cw s _ => (cw <=? 2)%nat && counts16_s s
+  | FListInt cw _ => (cw <=? 2)%nat
+  | FBytesP cw => (cw <=? 2)%nat
+  | FBytesC cw _ => (cw <=? 2)%nat
+  end.
+
+Lemma all_structs_counts16 :
+  forallb (fun x => counts16_s (sd_schema (snd (fst x)))) all_structs = true.
+Proof. vm_compute. reflexivity. Qed.
+
+Definition counts16_c (c : cdesc) : bool :=
+  counts16_s (cd_hdr c) && forallb (fun e => counts16_s (sd_schema (ce_desc e))) (cd_elems c).
+
+Lemma all_containers_counts16 :
+  forallb (fun x => counts16_c (snd (fst x))) all_containers = true.
+Proof. vm_compute. reflexivity. Qed.
+
+Lemma wmax_le16 cw : (cw <=? 2)%nat = true -> wmax cw <= 65536.
+Proof.
+  intros H. destruct cw as [|[|[|cw]]]; try (cbn in H; discriminate);
+    unfold wmax; cbn; lia.
+Qed.
+
+(* the number the generated Go decoder passes to make() for a dynamic field,
+   computed from the bytes seen so far, whether or not the rest of the read
+   succeeds: the decoded count prefix, resp. countType(countValue) *)
+Definition req_f (t : fty) (en : env) (b : bytes) : option Z :=
+  match t with
+  | FBytesP cw | FList cw _ _ | FListInt cw _ =>
+    match take (Z.of_nat cw) b with Some (h, _) => Some (le_dec h) | None => None end
+  | FBytesC cw e => Some ((ceval e en) mod wmax cw)
+  | _ => None
+  end.
+
+Theorem req_f_bound : forall t en b n,
+  counts16_f t = true -> bytes_ok b = true -> req_f t en b = Some n -> 0 <= n < 65536.
+Proof.
+  intros t en b n C B R.
+  destruct t as [w|k|s rh|cw s rh|cw w|cw|cw e]; cbn [req_f] in R; try discriminate;
+    cbn [counts16_f] in C; try (apply andb_prop in C as [C _]);
+    pose proof (wmax_le16 cw C) as W.
+  1-3: destruct (take (Z.of_nat cw) b) as [[h r]|] eqn:T; [|discriminate];
+       injection R as <-; pose proof (le_dec_take_bound _ _ _ _ B T); lia.
+  injection R as <-. pose proof (Z.mod_pos_bound (ceval e en) (wmax cw) (wmax_pos cw)). lia.
+Qed.
+
+(* dec_f really sizes its result by that number (these are the defining equations) *)
+Lemma dec_f_bytesP_req cw en b :
+  dec_f (FBytesP cw) en b =
+  match req_f (FBytesP cw) en b, take (Z.of_nat cw) b with
+  | Some n, Some (_, r) =>
+    match take n r with Some (d, r') => Some (VBytes d, r') | None => None end
+  | _, _ => None
+  end.
+Proof. cbn [dec_f req_f]. destruct (take (Z.of_nat cw) b) as [[h r]|]; reflexivity. Qed.
+
+Lemma dec_f_bytesC_req cw e en b :
+  dec_f (FBytesC cw e) en b =
+  match req_f (FBytesC cw e) en b with
+  | Some n => match take n b with Some (d, r') => Some (VBytes d, r') | None => None end
+  | None => None
+  end.
+Proof. reflexivity. Qed.
+
+Lemma dec_f_list_req cw s rh en b :
+  dec_f (FList cw s rh) en b =
+  match req_f (FList cw s rh) en b, take (Z.of_nat cw) b with
+  | Some n, Some (_, r) => dec_list s (Z.to_nat n) r
+  | _, _ => None
+  end.
+Proof. rewrite dec_f_list. cbn [req_f]. destruct (take (Z.of_nat cw) b) as [[h r]|]; reflexivity. Qed.
+
+Lemma dec_f_ints_req cw w en b :
+  dec_f (FListInt cw w) en b =
+  match req_f (FListInt cw w) en b, take (Z.of_nat cw) b with
+  | Some n, Some (_, r) => dec_ints w (Z.to_nat n) r
+  | _, _ => None
+  end.
+Proof. rewrite dec_f_ints. cbn [req_f]. destruct (take (Z.of_nat cw) b) as [[h r]|]; reflexivity. Qed.
+
+Lemma dec_list_vlen s : forall k b v r, dec_list s k b = Some (v, r) -> vlen v = Z.of_nat k.
+Proof.
+  induction k as [|k IHk]; intros b v r D; cbn [dec_list] in D.
+  - inversion D; subst. reflexivity.
+  - fold (dec_list s) in D.
+    destruct (dec_s s [] b) as [[x b1]|]; [|discriminate].
+    destruct (dec_list s k b1) as [[xs b2]|] eqn:D2; [|discriminate].
+    inversion D; subst v r. cbn [vlen]. rewrite (IHk _ _ _ D2). lia.
+Qed.
+
+Lemma dec_ints_vlen w : forall k b v r, dec_ints w k b = Some (v, r) -> vlen v = Z.of_nat k.
+Proof.
+  induction k as [|k IHk]; intros b v r D; cbn [dec_ints] in D.
+  - inversion D; subst. reflexivity.
+  - fold (dec_ints w) in D.
+    destruct (take (Z.of_nat w) b) as [[h1 b1]|]; [|discriminate].
+    destruct (dec_ints w k b1) as [[xs b2]|] eqn:D2; [|discriminate].
+    inversion D; subst v r. cbn [vlen]. rewrite (IHk _ _ _ D2). lia.
+Qed.
+
+(* size of a decoded dynamic field: blob length / number of list items *)
+Definition vsize (v : value) : Z :=
+  match v with VBytes d => zlen d | _ => vlen v end.
+
+(* what a dynamic field decodes to has exactly the requested size *)
+Theorem req_f_is_size : forall t en b n v r,
+  bytes_ok b = true -> req_f t en b = Some n -> dec_f t en b = Some (v, r) -> vsize v = n.
+Proof.
+  intros t en b n v r B R D.
+  destruct t as [w|k|s rh|cw s rh|cw w|cw|cw e]; cbn [req_f] in R; try discriminate.
+  - rewrite dec_f_list in D.
+    destruct (take (Z.of_nat cw) b) as [[h r']|] eqn:T; [|discriminate]. injection R as <-.
+    pose proof (le_dec_take_bound _ _ _ _ B T) as Bd.
+    pose proof (dec_list_vlen _ _ _ _ _ D) as L.
+    destruct v; cbn [vsize]; try (cbn [vlen] in *; lia).
+    exfalso. destruct (Z.to_nat (le_dec h)); cbn [dec_list] in D; [discriminate|].
+    fold (dec_list s) in D. destruct (dec_s s [] r') as [[x b1]|]; [|discriminate].
+    destruct (dec_list s n b1) as [[xs b2]|]; discriminate.
+  - rewrite dec_f_ints in D.
+    destruct (take (Z.of_nat cw) b) as [[h r']|] eqn:T; [|discriminate]. injection R as <-.
+    pose proof (le_dec_take_bound _ _ _ _ B T) as Bd.
+    pose proof (dec_ints_vlen _ _ _ _ _ D) as L.
+    destruct v; cbn [vsize]; try (cbn [vlen] in *; lia).
+    exfalso. destruct (Z.to_nat (le_dec h)); cbn [dec_ints] in D; [discriminate|].
+    fold (dec_ints w) in D. destruct (take (Z.of_nat w) r') as [[x b1]|]; [|discriminate].
+    destruct (dec_ints w n b1) as [[xs b2]|]; discriminate.
+  - cbn [dec_f] in D.
+    destruct (take (Z.of_nat cw) b) as [[h r']|] eqn:T; [|discriminate]. injection R as <-.
+    destruct (take (le_dec h) r') as [[d r'']|] eqn:T2; [|discriminate].
+    inversion D; subst v r''. apply take_some in T2 as (_ & L & _). exact L.
+  - cbn [dec_f] in D. injection R as <-.
+    destruct (take (ceval e en mod wmax cw) b) as [[d r']|] eqn:T; [|discriminate].
+    inversion D; subst v r'. apply take_some in T as (_ & L & _). exact L.
+Qed.
+
+(* result side, following the schema: every list has < 65536 items, every
+   dynamically sized blob has < 65536 bytes, recursively *)
+Fixpoint size_bounded_s (s : schema) (v : value) {struct s} : bool :=
+  match s, v with
+  | SNil, _ => true
+  | SCons _ t rest, VCons x xs => size_bounded_f t x && size_bounded_s rest xs
+  | _, _ => false
+  end
+with size_bounded_f (t : fty) (v : value) {struct t} : bool :=
+  match t with
+  | FInt _ => true
+  | FArr _ => true
+  | FSub s _ => size_bounded_s s v
+  | FList _ s _ =>
+      (vlen v <? 65536) &&
+      (fix go (l : value) : bool :=
+         match l with VCons x xs => size_bounded_s s x && go xs | _ => true end) v
+  | FListInt _ _ => vlen v <? 65536
+  | FBytesP _ => match v with VBytes b => zlen b <? 65536 | _ => false end
+  | FBytesC _ _ => match v with VBytes b => zlen b <? 65536 | _ => false end
+  end.
+
+Definition bounded_list (s : schema) : value -> bool :=
+  fix go (l : value) : bool :=
+    match l with VCons x xs => size_bounded_s s x && go xs | _ => true end.
+
+Lemma size_bounded_f_list cw s rh v :
+  size_bounded_f (FList cw s rh) v = (vlen v <? 65536) && bounded_list s v.
+Proof. reflexivity. Qed.
+
+Definition bounded_goal_s (s : schema) := forall en b v r,
+  counts16_s s = true -> bytes_ok b = true -> dec_s s en b = Some (v, r) ->
+  size_bounded_s s v = true.
+Definition bounded_goal_f (t : fty) := forall en b v r,
+  counts16_f t = true -> bytes_ok b = true -> dec_f t en b = Some (v, r) ->
+  size_bounded_f t v = true.
+
+Lemma bounded_dec_list s (C : counts16_s s = true) (IH : bounded_goal_s s) : forall k b v r,
+  bytes_ok b = true -> dec_list s k b = Some (v, r) -> bounded_list s v = true.
+Proof.
+  induction k as [|k IHk]; intros b v r B D; cbn [dec_list] in D.
+  - inversion D; subst. reflexivity.
+  - fold (dec_list s) in D.
+    destruct (dec_s s [] b) as [[x b1]|] eqn:D1; [|discriminate].
+    destruct (dec_list s k b1) as [[xs b2]|] eqn:D2; [|discriminate].
+    inversion D; subst v r. clear D.
+    destruct (codec_reencode_s _ _ _ _ _ B D1) as (_ & _ & B1).
+    cbn [bounded_list]. fold (bounded_list s).
+    rewrite (IH _ _ _ _ C B D1), (IHk _ _ _ B1 D2). reflexivity.
+Qed.
+
+Lemma bounded_mut : (forall s, bounded_goal_s s) /\ (forall t, bounded_goal_f t).
+Proof.
+  apply schema_fty_ind; unfold bounded_goal_s, bounded_goal_f.
+  - intros en b v r C B D. reflexivity.
+  - intros name t IHt rest IHr en b v r C B D. cbn [dec_s] in D.
+    cbn [counts16_s] in C. apply andb_prop in C as [C1 C2].
+    destruct (dec_f t en b) as [[x b1]|] eqn:D1; [|discriminate].
+    destruct (dec_s rest (en ++ [x]) b1) as [[xs b2]|] eqn:D2; [|discriminate].
+    inversion D; subst v r. clear D.
+    destruct (proj2 reenc_mut t _ _ _ _ B D1) as (_ & _ & B1).
+    cbn [size_bounded_s]. rewrite (IHt _ _ _ _ C1 B D1), (IHr _ _ _ _ C2 B1 D2). reflexivity.
+  - intros; reflexivity.
+  - intros; reflexivity.
+  - intros s IH rh en b v r C B D. cbn [dec_f] in D. cbn [counts16_f] in C.
+    cbn [size_bounded_f]. eapply IH; eauto.
+  - intros cw s IH rh en b v r C B D. cbn [counts16_f] in C. apply andb_prop in C as [C1 C2].
+    rewrite dec_f_list in D.
+    destruct (take (Z.of_nat cw) b) as [[h r']|] eqn:T; [|discriminate].
+    destruct (bytes_ok_take _ _ _ _ B T) as [Bh Br].
+    pose proof (le_dec_take_bound _ _ _ _ B T) as Bd. pose proof (wmax_le16 cw C1) as W.
+    rewrite size_bounded_f_list, (bounded_dec_list s C2 IH _ _ _ _ Br D).
+    rewrite (dec_list_vlen _ _ _ _ _ D). apply andb_true_intro. split; [lia|reflexivity].
+  - intros cw w en b v r C B D. cbn [counts16_f] in C.
+    rewrite dec_f_ints in D.
+    destruct (take (Z.of_nat cw) b) as [[h r']|] eqn:T; [|discriminate].
+    pose proof (le_dec_take_bound _ _ _ _ B T) as Bd. pose proof (wmax_le16 cw C) as W.
+    cbn [size_bounded_f]. rewrite (dec_ints_vlen _ _ _ _ _ D). lia.
+  - intros cw en b v r C B D. cbn [counts16_f] in C. cbn [dec_f] in D.
+    destruct (take (Z.of_nat cw) b) as [[h r']|] eqn:T; [|discriminate].
+    destruct (take (le_dec h) r') as [[d r'']|] eqn:T2; [|discriminate].
+    inversion D; subst v r''. clear D.
+    pose proof (le_dec_take_bound _ _ _ _ B T) as Bd. pose proof (wmax_le16 cw C) as W.
+    apply take_some in T2 as (_ & L & _). cbn [size_bounded_f]. lia.
+  - intros cw e en b v r C B D. cbn [counts16_f] in C. cbn [dec_f] in D.
+    destruct (take (ceval e en mod wmax cw) b) as [[d r']|] eqn:T; [|discriminate].
+    inversion D; subst v r'. clear D. pose proof (wmax_le16 cw C) as W.
+    pose proof (Z.mod_pos_bound (ceval e en) (wmax cw) (wmax_pos cw)).
+    apply take_some in T as (_ & L & _). cbn [size_bounded_f]. lia.
+Qed.
+
+Theorem manifest_value_bounded : forall s en b v r,
+  counts16_s s = true -> bytes_ok b = true -> dec_s s en b = Some (v, r) ->
+  size_bounded_s s v = true.
+Proof. exact (proj1 bounded_mut). Qed.
+
+Theorem manifest_value_bounded_f : forall t en b v r,
+  counts16_f t = true -> bytes_ok b = true -> dec_f t en b = Some (v, r) ->
+  size_bounded_f t v = true.
+Proof. exact (proj2 bounded_mut). Qed.
+
+(* for every structure of the generated table *)
+Corollary manifest_read_bounded_all : forall nm d ir b v r,
+  In (nm, d, ir) all_structs -> bytes_ok b = true -> read d b = Some (v, r) ->
+  size_bounded_s (sd_schema d) v = true.
+Proof.
+  intros nm d ir b v r I B D. unfold read in D.
+  eapply manifest_value_bounded; eauto.
+  exact (proj1 (forallb_forall _ _) all_structs_counts16 (nm, d, ir) I).
+Qed.
+
+
+(* ---- A.3 containers: the StructInfo loop ends within fuel S (length b) ---- *)
+
+(* one successful header read consumes at least one byte: the header schema
+   starts with a fixed-size field of positive size (the 8-byte structure ID) *)
+Definition hdr_consumes (c : cdesc) : bool :=
+  match cd_hdr c with
+  | SCons _ (FArr n) _ => (0 <? n)%nat
+  | SCons _ (FInt n) _ => (0 <? n)%nat
+  | _ => false
+  end.
+
+Lemma all_containers_hdr_consumes :
+  forallb (fun x => hdr_consumes (snd (fst x))) all_containers = true.
+Proof. vm_compute. reflexivity. Qed.
+
+Lemma hdr_progress c b h b1 : hdr_consumes c = true ->
+  dec_s (cd_hdr c) [] b = Some (h, b1) -> zlen b1 < zlen b.
+Proof.
+  unfold hdr_consumes. intros H D.
+  destruct (cd_hdr c) as [|nm t rest]; [discriminate|].
+  cbn [dec_s] in D.
+  destruct (dec_f t [] b) as [[x r1]|] eqn:D1; [|discriminate].
+  destruct (dec_s rest ([] ++ [x]) r1) as [[xs b2]|] eqn:D2; [|discriminate].
+  inversion D; subst h b1. clear D.
+  pose proof (manifest_read_rest_le _ _ _ _ _ D2) as L2.
+  assert (L1 : zlen r1 < zlen b).
+  { destruct t as [n|n| | | | | ]; try discriminate; cbn [dec_f] in D1;
+      (destruct (take (Z.of_nat n) b) as [[hh rr]|] eqn:T; [|discriminate]);
+      inversion D1; subst x rr; apply take_some in T as (E & Lh & _); subst b;
+      rewrite zlen_app; lia. }
+  lia.
+Qed.
+
+Lemma cdec_loop_total c (H : hdr_consumes c = true) : forall fuel slots seen prev n b,
+  (length b < fuel)%nat -> total (cdec_loop fuel c slots seen prev n b).
+Proof.
+  induction fuel as [|f IH]; intros slots seen prev n b L; [lia|].
+  cbn [cdec_loop].
+  destruct (dec_s (cd_hdr c) [] b) as [[h b1]|] eqn:D; [|apply total_ok].
+  pose proof (hdr_progress c b h b1 H D) as P1.
+  destruct (vnth h 0) as [[z|id| |hd tl]|]; try apply total_err.
+  destruct (find_elem (cd_elems c) id) as [i|].
+  2:{ apply IH. unfold zlen in P1. lia. }
+  destruct (Z.of_nat i <? prev); [apply total_err|].
+  destruct (nth_error (cd_elems c) i) as [e|]; [|apply total_err].
+  destruct (negb _ && (Z.of_nat i =? prev)); [apply total_err|].
+  destruct (dec_s (data_schema (ce_desc e)) [h] b1) as [[d b2]|] eqn:D2; [|apply total_err].
+  pose proof (manifest_read_rest_le _ _ _ _ _ D2) as P2.
+  apply IH. unfold zlen in *. lia.
+Qed.
+
+(* container ReadFrom on ANY byte string: an error or a value; the loop over the
+   StructInfo headers finishes within the fuel S (length b) the model states *)
+Theorem manifest_cread_total : forall c b, hdr_consumes c = true -> total (cread c b).
+Proof.
+  intros c b H. unfold cread.
+  pose proof (cdec_loop_total c H (S (length b)) (empty_slots (cd_elems c))
+                (map (fun _ => false) (cd_elems c)) (-1) 0 b (Nat.lt_succ_diag_r _)) as [P F].
+  destruct (cdec_loop _ c _ _ _ _ b) as [[[[slots seen] n] rest]|e|s|]; try discriminate.
+  - destruct (required_seen (cd_elems c) seen); [apply total_ok|apply total_err].
+  - apply total_err.
+Qed.
+
+Corollary manifest_cread_total_all : forall nm c ir b,
+  In (nm, c, ir) all_containers -> total (cread c b).
+Proof.
+  intros nm c ir b I. apply manifest_cread_total.
+  exact (proj1 (forallb_forall _ _) all_containers_hdr_consumes (nm, c, ir) I).
+Qed.
+
+(* the element bodies read by the container loop ([dec_s (data_schema d) [h] b1])
+   fall under manifest_value_bounded as well *)
+Lemma counts16_data_schema d : counts16_s (sd_schema d) = true -> counts16_s (data_schema d) = true.
+Proof.
+  unfold data_schema. destruct (sd_schema d) as [|nm t rest]; [reflexivity|].
+  cbn [counts16_s]. intros H. apply andb_prop in H as [_ H]. exact H.
+Qed.
+
+End ManT.
+
+(* ====================================================================== *)
 (* B. AMD                                                                  *)
 (* ====================================================================== *)
 Module AmdT.
@@ -171,22 +616,34 @@ Proof. intros. apply total_of_safe, safe_patch_bios. eapply parse_firmware_wf; e
 Theorem amd_extract_psp_entry_total : forall image fw level id,
   bytes_ok image = true -> parse_firmware image = Ok fw ->
   total (extract_psp_entry fw image level id).
-Proof. intros image fw level id OK P. eapply amd_extract_psp_entry_total_with; eauto. Qed.
+Proof.
+  intros image fw level id OK P.
+  exact (amd_extract_psp_entry_total_with (phys_to_off (zlen image)) image fw image level id OK P).
+Qed.
 
 Theorem amd_extract_bios_entry_total : forall image fw level id inst,
   bytes_ok image = true -> parse_firmware image = Ok fw ->
   total (extract_bios_entry fw image level id inst).
-Proof. intros image fw level id inst OK P. eapply amd_extract_bios_entry_total_with; eauto. Qed.
+Proof.
+  intros image fw level id inst OK P.
+  exact (amd_extract_bios_entry_total_with (phys_to_off (zlen image)) image fw image level id inst OK P).
+Qed.
 
 Theorem amd_patch_psp_entry_total : forall image fw level id d,
   bytes_ok image = true -> parse_firmware image = Ok fw ->
   total (patch_psp_entry fw image level id d).
-Proof. intros image fw level id d OK P. eapply amd_patch_psp_entry_total_with; eauto. Qed.
+Proof.
+  intros image fw level id d OK P.
+  exact (amd_patch_psp_entry_total_with (phys_to_off (zlen image)) image fw image level id d OK P).
+Qed.
 
 Theorem amd_patch_bios_entry_total : forall image fw level id inst d,
   bytes_ok image = true -> parse_firmware image = Ok fw ->
   total (patch_bios_entry fw image level id inst d).
-Proof. intros image fw level id inst d OK P. eapply amd_patch_bios_entry_total_with; eauto. Qed.
+Proof.
+  intros image fw level id inst d OK P.
+  exact (amd_patch_bios_entry_total_with (phys_to_off (zlen image)) image fw image level id inst d OK P).
+Qed.
 
 (* ---- B.4 keys: only buffer reads, no slice expression.
    NOTE (allocation): [read_buf (fst es / 8)] / [read_buf (fst ms / 8)] is where
